@@ -18,6 +18,7 @@ package svd
 
 /* -------------------------------------------------------------------------- */
 
+import "github.com/pbenner/autodiff/verifhook"
 import   "fmt"
 import   "math"
 
@@ -209,6 +210,7 @@ func golubKahanSVD(inSitu *InSitu, epsilon float64) (Matrix, Matrix, Matrix, err
   B := H.Slice(0,n,0,n)
 
   for p, q := 0, 0; q < n; {
+    verifhook.Tick("svd.golubkahan")
 
     for i := 0; i < n-1; i++ {
       b11 := B.At(i  ,i  ).GetFloat64()
